@@ -141,6 +141,8 @@ def make_symbolic(I, sh, name):
     if k == 'oneof':
         vs = kw['values']
         d = I.choice(len(vs))
+        if isinstance(vs[d], Shape):
+            return make_symbolic(I, vs[d], name)
         return vs[d]
     if k == 'none':
         return None
